@@ -42,6 +42,7 @@ type Machine struct {
 	tableVals []string
 	seedBytes []int
 	namedResults []types.Object
+	posFields map[string]bool
 	bigStrings []string
 	mu        sync.Mutex
 	pendingBelow []pushRecTag
@@ -68,6 +69,7 @@ type Outcome struct {
 	OffExact   bool
 	Why        string
 	Thrown     bool
+	Assigned   map[string]bool
 }
 
 // findWork locates the dispatch loop: a method of T whose body has
@@ -151,7 +153,7 @@ func ExtractMachine(prog *Program, rel, typeName string, rootNames []string) (*M
 	info := pk.TypesInfo
 	m := &Machine{Name: rel + "." + typeName, prog: prog, pkg: pk, recvType: named, work: fd, workFn: fn, loop: loop, sw: sw, modeFld: modeFld,
 		carried: map[any]string{}, tables: map[string]string{}, tableLen: map[string]int{}, caseCodes: map[int64]string{}, roots: map[string]*types.Func{},
-		belowC: map[string][]absStack{}, belowKeys: map[string]bool{}}
+		belowC: map[string][]absStack{}, belowKeys: map[string]bool{}, posFields: map[string]bool{}}
 	m.recvObj = info.Defs[fd.Recv.List[0].Names[0]]
 	// parameters: the []byte buffer and the bool "last"
 	for _, fl := range fd.Type.Params.List {
@@ -574,6 +576,82 @@ func (m *Machine) classifyFields() {
 			return true
 		})
 	}
+	// scratch buffers: []byte fields that are both truncated (F = F[:0]) and appended to
+	in.scratch = map[string]bool{}
+	trunc, app := map[string]bool{}, map[string]bool{}
+	for _, fd := range decls {
+		ast.Inspect(fd.Body, func(n ast.Node) bool {
+			as, ok := n.(*ast.AssignStmt)
+			if !ok || len(as.Lhs) != 1 || len(as.Rhs) != 1 {
+				return true
+			}
+			f := recvField(as.Lhs[0], fd)
+			if f == "" {
+				return true
+			}
+			if sl, ok := fieldType[f].Underlying().(*types.Slice); !ok {
+				return true
+			} else if b, ok := sl.Elem().Underlying().(*types.Basic); !ok || b.Kind() != types.Uint8 {
+				return true
+			}
+			switch r := as.Rhs[0].(type) {
+			case *ast.SliceExpr:
+				if recvField(r.X, fd) == f && r.High != nil && isZeroLit(r.High) {
+					trunc[f] = true
+				}
+			case *ast.CallExpr:
+				if id, ok := r.Fun.(*ast.Ident); ok && id.Name == "append" && len(r.Args) >= 1 && recvField(r.Args[0], fd) == f {
+					app[f] = true
+				}
+			}
+			return true
+		})
+	}
+	for f := range trunc {
+		if app[f] && !in.stackFld[f] {
+			in.scratch[f] = true
+		}
+	}
+	// position fields: receiver fields read where a ParseError literal is built
+	// (also in methods of embedded struct types, whose fields are promoted)
+	posDecls := append([]*ast.FuncDecl{}, decls...)
+	for i := 0; i < st.NumFields(); i++ {
+		if f := st.Field(i); f.Embedded() {
+			if en, ok := f.Type().(*types.Named); ok {
+				for _, file := range m.pkg.Syntax {
+					for _, d := range file.Decls {
+						if d2, ok := d.(*ast.FuncDecl); ok && d2.Recv != nil && d2.Body != nil {
+							if f2, _ := info.Defs[d2.Name].(*types.Func); f2 != nil && recvNamed(f2) == en {
+								posDecls = append(posDecls, d2)
+							}
+						}
+					}
+				}
+			}
+		}
+	}
+	for _, fd := range posDecls {
+		ast.Inspect(fd.Body, func(n ast.Node) bool {
+			cl, ok := n.(*ast.CompositeLit)
+			if !ok {
+				return true
+			}
+			t := info.TypeOf(cl)
+			nt, ok := t.(*types.Named)
+			if !ok || nt.Obj().Name() != "ParseError" {
+				return true
+			}
+			ast.Inspect(cl, func(k ast.Node) bool {
+				if e, ok := k.(ast.Expr); ok {
+					if f := recvField(e, fd); f != "" {
+						m.posFields[f] = true
+					}
+				}
+				return true
+			})
+			return true
+		})
+	}
 	if in.buildFld != "" {
 		for fn, fd := range in.methods {
 			if fd.Type.Params == nil || len(fd.Type.Params.List) == 0 || len(fd.Type.Params.List[0].Names) == 0 {
@@ -654,6 +732,10 @@ func (m *Machine) Starts(root string, config map[string]Val) ([]*State, []string
 		if in.tracked[f] {
 			st.fields[f] = v
 		}
+	}
+	st.garbage = map[string]bool{}
+	for f := range in.scratch {
+		st.garbage[f] = true
 	}
 	// exported tracked fields are configuration, not carried state
 	stt := m.recvType.Underlying().(*types.Struct)
@@ -754,6 +836,7 @@ func (m *Machine) Step(in *Interp, s0 *State, b int) []Outcome {
 	s.scan = nil
 	s.events, s.notes, s.popped, s.pushed, s.readStale = nil, nil, nil, nil, nil
 	s.errArg = nil
+	s.assigned = nil
 	s.locals[m.offVar] = vOff(0, false)
 	var outs []Outcome
 	for _, e := range in.execList(m.loop.Body.List, s) {
@@ -781,7 +864,7 @@ func (m *Machine) EOF(in *Interp, s0 *State) []Outcome {
 }
 
 func (m *Machine) outcome(e Exit, eof bool) Outcome {
-	o := Outcome{Events: e.st.events, Pops: e.st.popped, Pushes: e.st.pushed, Notes: e.st.notes, ReadStale: e.st.readStale}
+	o := Outcome{Events: e.st.events, Pops: e.st.popped, Pushes: e.st.pushed, Notes: e.st.notes, ReadStale: e.st.readStale, Assigned: e.st.assigned}
 	switch e.ctl {
 	case cPanic:
 		if strings.HasPrefix(e.why, "explicit panic") {
@@ -987,6 +1070,7 @@ func (m *Machine) outcome(e Exit, eof bool) Outcome {
 	n.scan = nil
 	n.events, n.notes, n.popped, n.pushed, n.readStale = nil, nil, nil, nil, nil
 	n.errArg = nil
+	n.assigned = nil
 	o.Next = n
 	return o
 }
